@@ -5,7 +5,7 @@ from . import c06
 
 ID = 'C11'
 LEVEL = 'exploration'
-RUNS = {'quick': 1600}
+RUNS = {'quick': 6400}
 BUDGET_S = {'thorough': 600}
 WANT = {'C11'}
 CMD_WEIGHTS = {'list': 10, 'connection': 3, 'filter': 2, 'breakpoint': 1, 'other': 1}
